@@ -29,12 +29,12 @@ TIERS = {
     'quick': {'shards': 14, 'random': 2800, 'timeout': 900, 'min_cases': 1800, 'max_timeouts': 3,
               'require_branches': ['input:closed', 'input:open', 'joint:line-line', 'joint:line-curve', 'joint:curve-line',
                                    'joint:curve-curve', 'joint:already-smooth', 'input:control-point-on-joint',
-                                   'input:single-segment', 'segments-shorter-than-joint']},
+                                   'input:single-segment', 'segments-shorter-than-joint', 'corner:slight', 'lengths:uneven']},
     'thorough': {'shards': 14, 'random': 100000, 'timeout': 3400, 'min_cases': 60000, 'max_timeouts': 50,
                  'require_branches': ['input:closed', 'input:open', 'joint:line-line', 'joint:line-curve',
                                       'joint:curve-line', 'joint:curve-curve', 'joint:already-smooth',
                                       'input:control-point-on-joint', 'input:single-segment',
-                                      'segments-shorter-than-joint']},
+                                      'segments-shorter-than-joint', 'corner:slight', 'lengths:uneven']},
 }
 CASE_TIMEOUT = 60
 
@@ -58,6 +58,23 @@ def end_tangent(seg, at_end):
                 d = q - base
                 return d / abs(d)
     return None
+
+
+def end_leg(seg, at_end):
+    """length of the control-polygon leg that defines the tangent at that end"""
+    pts = [complex(p) for p in I.bps_of(seg)]
+    base = pts[-1] if at_end else pts[0]
+    for q in (reversed(pts[:-1]) if at_end else pts[1:]):
+        if abs(q - base) > 64 * gen.EPS * (abs(q) + abs(base)):
+            return abs(q - base)
+    return 0.0
+
+
+def kink_tol(a, b):
+    """1e-6 rad plus what the rounding of the control points themselves (1 ulp each) can turn the two tangents by"""
+    mag = max(abs(complex(p)) for s in (a, b) for p in I.bps_of(s))
+    leg = min(end_leg(a, True), end_leg(b, False))
+    return 1e-6 + (16 * gen.EPS * mag / leg if leg > 0 else 0.0)
 
 
 def joint_angle(a, b):
@@ -146,7 +163,7 @@ def post_smoothed_path(call):
             ctx.violation('degenerate-output-segment/%s' % tag, 'an output segment has no tangent (all control points equal)',
                           {'index': i})
             return True
-        if ang > 1e-6:
+        if ang > kink_tol(s0, s1):
             where = 'closing-joint' if (closed and i == n - 1) else 'joint'
             ctx.violation('kink-left/%s/%s' % (tag, where),
                           'the smoothed path still has a kink of %.3g rad' % ang,
@@ -222,7 +239,7 @@ def post_smoothed_joint(call):
             ctx.violation('joint/%s/discontinuous' % kind, 'the pieces returned by smoothed_joint do not join', {'index': i})
             return True
         g = joint_angle(chain[i], chain[i + 1])
-        if g is None or g > 1e-6:
+        if g is None or g > kink_tol(chain[i], chain[i + 1]):
             ctx.violation('joint/%s/kink' % kind, 'the elbow does not join smoothly (%.3g rad)' % (g if g is not None else -1),
                           {'index': i, 'seg0': gen.seg_spec(s0), 'seg1': gen.seg_spec(s1)})
             return True
@@ -275,10 +292,21 @@ def _gen_path(rng, mj):
     pts = []
     p = complex(rng.uniform(-10, 10), rng.uniform(-10, 10))
     heading = rng.uniform(0, 2 * math.pi)
+    slight = uneven = False
     for i in range(n + 1):
         pts.append(p)
-        heading += math.radians(rng.choice([-1, 1]) * rng.uniform(1, 170))
-        p = p + scale * rng.uniform(0.3, 3) * complex(math.cos(heading), math.sin(heading))
+        turn = math.radians(rng.choice([-1, 1]) * rng.uniform(1, 170))
+        if rng.random() < 0.12:
+            # a slight but real corner (well above the 1e-5 at which unit tangents count as equal)
+            turn = rng.choice([-1, 1]) * 10.0 ** rng.uniform(-4, -2)
+            slight = True
+        heading += turn
+        step = rng.uniform(0.3, 3)
+        if rng.random() < 0.12:
+            # a segment far shorter (or far longer) than its neighbours: the elbow must fit the shorter one
+            step *= 10.0 ** rng.uniform(-2.5, -1)
+            uneven = True
+        p = p + scale * step * complex(math.cos(heading), math.sin(heading))
     if closed:
         pts[-1] = pts[0]
     specs = []
@@ -317,6 +345,10 @@ def _gen_path(rng, mj):
                     c1 = a + dirn * L * rng.uniform(0.2, 0.5)
                     cls.add('smooth-by-construction')
             specs.append(['C', [a.real, a.imag], [c1.real, c1.imag], [c2.real, c2.imag], [b.real, b.imag]])
+    if slight:
+        cls.add('corner:slight')
+    if uneven:
+        cls.add('lengths:uneven')
     return specs, sorted(cls) + (['closed'] if closed else ['open'])
 
 
@@ -342,7 +374,7 @@ def run_case(ctx, case):
     import svgpathtools.smoothing as S
     p = gen.path(case['segs'])
     for c in case['cls']:
-        if c in ('input:control-point-on-joint', 'segments-shorter-than-joint'):
+        if c in ('input:control-point-on-joint', 'segments-shorter-than-joint', 'corner:slight', 'lengths:uneven'):
             ctx.branch(c)
     if len(p) > 1 and not in_scope(p):
         raise core.Skip('generated path outside the statement (reversal or degenerate)')
